@@ -13,7 +13,7 @@ PROP = "C11"
 LEVEL = "exploration"
 MIN_VARIANTS = 1
 TIERS = {
-    "quick": {"cases": 260, "budget_s": 80, "batch": 64},
+    "quick": {"cases": 700, "budget_s": 80, "batch": 64},
     "thorough": {"cases": 8000, "budget_s": 900, "batch": 64},
 }
 RULE = (
@@ -33,6 +33,9 @@ SHRINK_CONTENT = False
 
 POISON = {"*/": "Evil */ Corp", "-->": "Evil --> Corp", "#}": "Evil #} Corp", "*)": "Evil *) Corp", "=#": "Evil =# Corp",
           ":)": "Evil :) Corp", "--}}": "Evil --}} Corp", "'/": "Evil '/ Corp", "*#": "Evil *# Corp", "--%>": "Evil --%> Corp", "}": "Evil } Corp"}
+# files whose style comes from their NAME, not their suffix (several share the empty suffix)
+BY_NAME = {"Makefile": "python", "Jenkinsfile": "cpp", "ROOT": "ml", "Dockerfile": "python", "Gemfile": "python", "go.mod": "cpp",
+           "Rakefile": "python", "CODEOWNERS": "python"}
 FILE_STYLES = ["python", "c", "html", "cpp", "ml", "jinja", "julia", "tex", "xquery", "ftl", "handlebars", "haskell", "plantuml",
                "applescript", "bibtex", "vst", "aspx"]
 
@@ -43,12 +46,18 @@ def gen_case(seed, tier, index=0):
     files, metas = [], []
     n = rng.randint(2, 6)
     for i in range(n):
-        k = rng.wpick([(8, "styled"), (1, "binary"), (1, "uncommentable"), (1, "unrecognised")])
+        k = rng.wpick([(8, "styled"), (2, "byname"), (1, "binary"), (1, "uncommentable"), (1, "unrecognised")])
         m = {"kind": k, "existing_lic": False, "sibling": False}
-        if k == "styled":
-            style = rng.pick(FILE_STYLES)
+        if k in ("styled", "byname"):
+            if k == "byname":
+                fname = rng.pick(sorted(BY_NAME))
+                style = BY_NAME[fname]
+                name = f"d{i}/{fname}"
+                m["kind"] = k = "styled"
+            else:
+                style = rng.pick(FILE_STYLES)
+                name = f"d{i % 2}/f{i}{G.STYLES[style][7]}"
             m["style"] = style
-            name = f"d{i % 2}/f{i}{G.STYLES[style][7]}"
             h = rng.randrange(4)
             body = G.body_for(style)
             if h == 0:
@@ -113,7 +122,8 @@ def gen_case(seed, tier, index=0):
         opts["template"] = t
         extra = A.template_files([t])
     if family == "usage":
-        usage = rng.pick(["no-info", "mutex-lines", "mutex-style", "unknown-template", "unsupported-line", "unrecognised", "mutex-year"])
+        usage = rng.pick(["no-info", "mutex-lines", "mutex-style", "unknown-template", "unsupported-line", "unsupported-line",
+                          "unsupported-line", "unrecognised", "mutex-year"])
         if usage == "no-info":
             opts["holders"], opts["licenses"] = [], []
             opts.pop("contributors", None)
@@ -134,11 +144,21 @@ def gen_case(seed, tier, index=0):
             # --single-line with a multi-line-only file, or --multi-line with a single-line-only file, somewhere in the batch
             opts.pop("style", None)
             opts.pop("multi_line", None)
+            for f in ("force_dot_license", "skip_unrecognised"):
+                opts.pop(f, None)
+            opts["fallback_dot_license"] = True  # so that an unrecognised file in the batch is not the (earlier) usage error
             which = rng.pick(["single_line", "multi_line"])
             opts[which] = True
             style = "c" if which == "single_line" else "python"
             pos = rng.randrange(len(metas) + 1)
             name = f"d1/trigger{G.STYLES[style][7]}"
+            if rng.chance(0.5):
+                # the offending file is recognised by its name and shares its (empty) suffix with files of other styles
+                name = "dx/ROOT" if which == "single_line" else "dx/Makefile"
+                style = "ml" if which == "single_line" else "python"
+                other = "dy/Makefile" if which == "single_line" else "dy/Jenkinsfile"
+                files.append({"path": other, "content": "all:\n" if which == "single_line" else "pipeline {}\n"})
+                metas.append({"kind": "styled", "style": "python" if which == "single_line" else "cpp", "path": other, "existing_lic": False, "sibling": False})
             files.insert(pos, {"path": name, "content": G.body_for(style)})
             metas.insert(pos, {"kind": "styled", "style": style, "path": name, "existing_lic": False, "sibling": False})
         elif usage == "unrecognised":
